@@ -197,16 +197,26 @@ prop("C11", "Encoding emits exactly the modelled content in the documented CBOR 
 prop("C13", "An accepted input is exactly one CBOR item; byte and Value APIs agree",
      mirsym={"jobs": _jl("c13"), "budget_s": {"quick": 900, "thorough": 3000}, "need_both": False},
      bounds=_RT_BOUNDS,
-     outside="'every proper prefix of an accepted input is rejected' and 'a complete item followed by a suffix is "
+     outside="raw-head inputs (1..33 symbolic bytes ++ opaque body, as in C14) are covered for the six taggable "
+             "types; beyond that, 'every proper prefix of an accepted input is rejected' and 'a complete item followed by a suffix is "
              "parsed as that item' are facts about CBOR's prefix-freeness inside ciborium: assumed (parser stub "
              "returns an arbitrary consumed length), not decided",
      assumptions=[])
 prop("C14", "Tagged forms carry exactly the structure's registered CBOR tag",
      mirsym={"jobs": _jl("c14"), "budget_s": {"quick": 900, "thorough": 3000}, "need_both": False},
      bounds={"quick": "all six taggable types; tag numbers: every u64; bodies as in C09's quick bounds with 1 map "
-                      "entry in total; untagged decoders of all eight structure types on items that may be tags",
+                      "entry in total; untagged decoders of all eight structure types on items that may be tags; "
+                      "raw inputs = 1, 2, 3, 5, 9, 17 or 33 symbolic bytes followed by an opaque body, through "
+                      "from_slice and from_tagged_slice of the six types: every tag-head encoding (all widths, "
+                      "all 64-bit numbers, non-minimal forms) and every impossible first byte",
              "thorough": "bodies with 10 array elements in total, text <= 2 bytes, depth 7"},
-     outside="tag-head encodings (parser stub)", assumptions=[])
+     outside="head bytes that are neither one well-formed tag head nor an impossible first byte (e.g. two "
+             "stacked tag heads: the doubly tagged case is decided at the Value level only); paths on which the "
+             "code under analysis reads body bytes are dropped and counted (dropped_opaque_reads; none on the "
+             "unchanged tree)",
+     assumptions=["a well-formed tag head followed by a body parses to Tag(number, parse(body)); reserved "
+                  "additional information 28..30 and indefinite-length integers/tags are syntax errors (RFC 8949 "
+                  "section 3) -- this is the reference reading of the head bytes that the parser stub implements"])
 prop("C20", "Canonicalising a key sorts its encoding and changes nothing else",
      mirsym={"jobs": _jl("c20"), "budget_s": {"quick": 900, "thorough": 3000}, "need_both": False},
      bounds={"quick": "keys with every subset of {kid, alg, key_ops, base IV} and 2 extra parameters with arbitrary "
@@ -242,8 +252,11 @@ prop("C19", "Builders apply exactly the documented effect of each call, in any o
                       "over every i64 label; mirsym (MIR): every sequence of 3 calls over ALL public setters and "
                       "adders of the 14 builders with the method chosen symbolically at every step, byte strings "
                       "empty or of symbolic length, labels and integers: all i64 / u64, registry arguments: every "
-                      "registered value; private fields of COSE_KDF_Context compared directly",
-             "thorough": "sequences of 4 calls"},
-     outside="longer sequences; create_* helpers (C06)", assumptions=[])
+                      "registered value; private fields of COSE_KDF_Context compared directly; the create / "
+                      "try-create helpers of the seven message builders after every history of <= 2 calls "
+                      "(creator called once with the RFC structure of the current state -- every context for "
+                      "recipients --, output stored, error returned unchanged, documented refusals panic)",
+             "thorough": "sequences of 4 calls; create helpers after histories of <= 3 calls"},
+     outside="longer sequences; what a verifier later sees of the created value is C06's check", assumptions=[])
 
 NOT_APPLICABLE = {}
